@@ -279,7 +279,7 @@ void Runner::op_poll(Thread *t, int idx, const Op &op_in, OpRes &res) {
     if (t1ms < h->dl_lo_ms) viol("C08", "deadline-event-early", "sources=" + pat, fmt("deadline event at %lld ms, deadline is %lld ms", (long long) t1ms, (long long) h->dl_lo_ms), idx);
     // clock readings for different sources are taken at different instants: deadlines closer together than the time that passed
     // inside the call (outside the blocking poll) count as tied
-    int64_t jit_ms = ((res.t1_ns - res.t0_ns) - res.parked_ns) / 1000000 + 1;
+    int64_t jit_ms = (cx.first_poll_ns > 0 ? cx.first_poll_ns - res.t0_ns : (res.t1_ns - res.t0_ns) - res.parked_ns) / 1000000 + 1;
     if (earliest_hi >= 0 && h->dl_lo_ms > earliest_hi + jit_ms)
       viol("C08", "deadline-event-wrong-source", "sources=" + pat, fmt("source %zu (deadline %lld ms) is not the one with the earliest deadline (%lld ms)", who,
                                                                       (long long) h->dl_lo_ms, (long long) earliest_hi), idx);
@@ -510,8 +510,10 @@ void Runner::op_drain_run(Thread *t, int idx, const Op &op, OpRes &res) {
         if ((piped1 && cb_out && closes[1] != 1) || (piped2 && cb_err && closes[2] != 1))
           viol("C16", "returned-zero-before-close", cfg, "drain returned 0 although a piped stream did not get its closing call", idx);
         if (c && piped1 && cb_out && d.got[1] != c->out_off[1] && c->st != Proc::RUNNING)
+          viol("C02", "drain-lost-output", "stream=1", "drain returned 0 although not every byte the child wrote on stdout was delivered", idx),
           viol("C16", "output-incomplete", "stream=1", fmt("out sink received %llu bytes, the child wrote %llu", (unsigned long long) d.got[1], (unsigned long long) c->out_off[1]), idx);
         if (c && piped2 && cb_err && d.got[2] != c->out_off[2] && c->st != Proc::RUNNING)
+          viol("C02", "drain-lost-output", "stream=2", "drain returned 0 although not every byte the child wrote on stderr was delivered", idx),
           viol("C16", "output-incomplete", "stream=2", fmt("err sink received %llu bytes, the child wrote %llu", (unsigned long long) d.got[2], (unsigned long long) c->out_off[2]), idx);
       } else if (dv == C.ETIMEDOUT_) {
         if (!h || h->dl_lo_ms < 0 || ms(res.t1_ns) < h->dl_lo_ms)
@@ -554,6 +556,17 @@ void Runner::op_drain_run(Thread *t, int idx, const Op &op, OpRes &res) {
     if (v >= 0) {
       if (!c || c->st != Proc::REAPED) viol("C16", "run-status-without-exit", "", fmt("run returned %lld but the child has not exited and been reaped", v), idx);
       else if (v != expected_status(c)) viol("C16", "run-wrong-status", "", fmt("run returned %lld, the child's status is %d", v, expected_status(c)), idx);
+      // a status means drain came back with 0: both piped streams were read to their end
+      if (c && c->image && !failed_by_sink) {
+        for (int sfd = 1; sfd <= 2; sfd++) {
+          auto it = c->image->fds.find(sfd);
+          if (it == c->image->fds.end() || it->second.kind != OFD::PIPE_W) continue;
+          if ((sfd == 1 && !piped1) || (sfd == 2 && !piped2 && !(piped1 && c->image->fds.count(1) && c->image->fds[1].pipe_id == it->second.pipe_id))) continue;
+          Pipe *pp = pipe_by_id(it->second.pipe_id);
+          if (pp && pp->len > 0)
+            viol("C16", "run-did-not-drain", fmt("out=%d/err=%d", ok, ek), fmt("run returned status %lld with %zu bytes of the child's stream %d never read", v, pp->len, sfd), idx);
+        }
+      }
     }
     for (size_t fd = 0; fd < k->caller->fds.size(); fd++) {
       FdEnt &e = k->caller->fds[fd];
